@@ -10,6 +10,7 @@
  *        pathsub: substring of the path ("*" = any)
  *        k      : 1-based index among the matching calls; 0 = every matching call
  *        action : eio enospc  (the call fails with that errno, nothing is done)
+ *                 flip        (write/pwrite: one bit of the data is altered on its way to the file, the call succeeds)
  *                 killb       (SIGKILL before the call)        killa  (SIGKILL right after the call)
  *                 short       (write/pwrite: half of the bytes are written, then SIGKILL)
  *                 sigint      (SIGINT to the process after the call)   sigterm
@@ -266,6 +267,20 @@ static ssize_t do_write(const char* call, int fd, const void* buf, size_t count,
 		ret = positional ? real_pwrite(fd, buf, half, off) : real_write(fd, buf, half);
 		emit(call, path, 0, off, count, ret, 0, "short");
 		die();
+	}
+	if (r && strcmp(r->action, "flip") == 0 && count > 0) {
+		/* the data reaches the file with one bit altered (at byte arg % count) and the call reports success */
+		unsigned char* tmp = malloc(count);
+		if (tmp) {
+			memcpy(tmp, buf, count);
+			tmp[(r->arg > 0 ? (size_t)r->arg : count / 2) % count] ^= 0x10;
+			ret = positional ? real_pwrite(fd, tmp, count, off) : real_write(fd, tmp, count);
+			e = errno;
+			free(tmp);
+			emit(call, path, 0, positional ? (long long)off : -1, count, ret, ret < 0 ? e : 0, "flip");
+			errno = e;
+			return ret;
+		}
 	}
 	ret = positional ? real_pwrite(fd, buf, count, off) : real_write(fd, buf, count);
 	e = errno;
